@@ -208,6 +208,16 @@ def gen_cases(rng, tier):
                 m.append({"s": V.S(V.gen_text(r)), "n": V.I(r.below(10 ** 6)), "ip": ["ip", r.choice(["192.168.1.1", "fe80::1"])],
                           "d": _dg()}[m[2]])
         cases.append({"kind": "stream", "via": r.choice(["fileobj", "path"]), "records": recs, "regen": mods})
+    # a write that FAILS (the record cannot be serialised) as the first record of its type, caught by the producer who
+    # carries on: every record written afterwards is read back
+    r = rng.fork("prefail")
+    PF = ["t/pf", [["string", "s"], ["varint", "n"], ["dictlist", "d"]]]
+    for _ in range({"quick": 10, "thorough": 150, "search": 30}[tier]):
+        good = [["rec", PF, [V.S(V.gen_text(r)), V.I(r.below(1000)), ["list", []]],
+                 {"_generated": V.gen_dt_spec(r, tzkinds=("utc",), fold_ok=False)}] for _ in range(r.randint(1, 3))]
+        other = [V.gen_record(r, nfields=2) for _ in range(r.randint(0, 1))]
+        cases.append({"kind": "stream", "via": r.choice(["fileobj", "path"]), "records": other + good,
+                      "prefail": {"at": len(other), "how": r.choice(["surrogate", "unpackable"])}})
     r = rng.fork("rewrite")
     GA = ["g/a", [["string", "x"], ["varint", "n"]]]
     GB = ["g/b", [["string", "y"], ["string[]", "tags"]]]
@@ -404,8 +414,7 @@ def run_real(case):
             if case["via"] == "fileobj":
                 buf = io.BytesIO()
                 w = RecordStreamWriter(buf)
-                for r in recs:
-                    w.write(r)
+                _write_all(w, recs, case)
                 w.flush()
                 data = buf.getvalue()
                 w.fp = None  # keep the BytesIO out of __del__'s close()
@@ -419,8 +428,7 @@ def run_real(case):
                 d = tempfile.mkdtemp(prefix="frv-c01-")
                 path = os.path.join(d, "out.records" + (".gz" if case["via"] == "gz" else ""))
                 w = RecordWriter(path)
-                for r in recs:
-                    w.write(r)
+                _write_all(w, recs, case)
                 w.flush()
                 w.close()
                 raw = open(path, "rb").read()
@@ -453,6 +461,23 @@ def run_real(case):
             # the objects that WERE WRITTEN are edited in place afterwards and written to a second stream
             out["rewrite"] = _regen(case, recs, case["rewrite"])
         return out
+
+
+def _write_all(w, recs, case):
+    pf = case.get("prefail")
+    for i, r in enumerate(recs):
+        if pf and i == pf["at"]:
+            # a record of the same type that cannot be serialised: the producer catches the error and carries on
+            d = r._desc
+            bad = d(s="\ud800", n=1, d=[]) if pf["how"] == "surrogate" else d(s="x", n=1, d=[{"k": {1, 2}}])
+            try:
+                w.write(bad)
+                raise AssertionError("the unserialisable record was written")
+            except AssertionError:
+                raise
+            except Exception:          # noqa: BLE001
+                pass
+        w.write(r)
 
 
 def _regen(case, got, mods=None):
